@@ -121,6 +121,13 @@ def handle (c : Cfg) (o : Outcome α) (p : PubOutcome) : List (Effect α) :=
     | .returns outs false =>
       .addCtx outs :: ((publishProduced c outs p).1 ++ settleTail (publishProduced c outs p).2))
 
+/-- a publisher whose verdict depends on the messages of the call (`f`): `handleMessage` makes (at most) one call,
+    with all the outputs, so the verdict that matters is `f outs` -/
+def handleWith (c : Cfg) (o : Outcome α) (f : List α → PubOutcome) : List (Effect α) :=
+  handle c o (match o.result with
+    | .returns outs _ => f outs
+    | .panics _ => .accept)
+
 /-! ### settlement seen by the subscriber: `Wm.Ack` over the settle effects -/
 
 def settleOp : Effect α → Option Ack.Op
@@ -153,14 +160,16 @@ def selfSent : Option Settle → Ack.Sent
 /-! ### middleware prefix used by the harness (a chain outcome is computed from the handler's outcome) -/
 
 /-- `pass` calls the next handler and returns its result unchanged; `addOut x` appends one more output
-    (also next to an error); a panic of the inner handler passes through both. -/
-inductive Mw (α : Type) | pass | addOut (x : α)
+    (also next to an error); `rebuild` copies the outputs into a fresh slice (in Go: an empty but non-nil slice
+    when there are none – the same list here); a panic of the inner handler passes through all of them. -/
+inductive Mw (α : Type) | pass | addOut (x : α) | rebuild
   deriving DecidableEq, Repr
 
 def applyMw : Mw α → Outcome α → Outcome α
   | .pass, o => o
   | .addOut x, ⟨s, .returns outs e⟩ => ⟨s, .returns (outs ++ [x]) e⟩
   | .addOut _, o => o
+  | .rebuild, o => o
 
 /-- middlewares in registration order: the first is outermost -/
 def chain (mws : List (Mw α)) (o : Outcome α) : Outcome α := mws.foldr applyMw o
